@@ -16,6 +16,7 @@ LEVEL_NOTE = ("Partial by necessity: the unchanged code violates the property in
               "children assignment does not return children taken from other parents; K4 a persistently vetoed restore "
               "recurses without bound). These are reported as KNOWN-FINDING and only a deviation outside these classes, or "
               "a different damage inside them, is a VIOLATION. Trusted: Lean kernel, standard axioms, the mirror.")
+MODULES = ['Anytree.Props.C03', 'Anytree.Props.C03b']
 THEOREMS = [
     ("Anytree.Props.C03.C03_full_false", "witness"),
     ("Anytree.Props.C03.K1_witness", "witness"),
@@ -31,13 +32,20 @@ THEOREMS = [
     ("Anytree.Props.C03.K4_persistent_preAttachChildren_diverges", "witness"),
     ("Anytree.Props.C03.K4_state", "witness"),
     ("Anytree.K4_witness", "witness"),
+    ("Anytree.Props.C03.C03_attach_phase_preAttachChildren_gen", "partial"),
+    ("Anytree.Props.C03.C03_attach_phase_preAttachChildren", "partial"),
+    ("Anytree.Props.C03.C03_attach_phase_preAttachChildren'", "partial"),
+    ("Anytree.Props.C03.C03_attach_phase_preAttach", "partial"),
+    ("Anytree.Props.C03.C03_attach_phase_preDetach", "partial"),
+    ("Anytree.Props.C03.C03_attach_phase_loopError", "partial"),
+    ("Anytree.Props.C03.A1_position_needed", "witness"),
 ]
-NOT_COVERED = ["C03_full is false of the unchanged code (C03_full_false); what is proved are the C03_partial_* theorems "
-               "(parent assignment; children deletion; argument checks and delete phase of children assignment), whose "
-               "hypotheses are the complements of the finding classes K1/K2. The attach phase of a children assignment "
-               "(vetoed by _pre_attach_children or a per-child pre hook, or refused with LoopError, with no foreign-parent "
-               "element processed and no further fault during the restore: not-K3 and not-K4) is NOT proved unchanged in Lean; "
-               "it is covered by the fault enumeration of the correspondence run only"]
+NOT_COVERED = ["C03_full is false of the unchanged code (C03_full_false); what is proved are the C03_partial_* theorems (parent "
+               "assignment; children deletion; argument checks and delete phase of children assignment) and the C03_attach_phase_* "
+               "theorems (a one-shot veto by _pre_attach_children, by the _pre_attach/_pre_detach of an element, or a LoopError in "
+               "the attach loop restores the old state when no element processed so far came from another parent: the complements "
+               "of K3/K4). Not proved: that the stated hook positions are the only ones at which those errors can arise, and "
+               "one-shot faults striking inside the restore after a LoopError (class K4); both are covered by the fault enumeration"]
 PREDICATE_SPEC = True
 KNOWN_IDS = set()
 KNOWN_HITS = {}
